@@ -1,10 +1,20 @@
 """C10 -- the generated CasADi model classifies every variable exactly once.
 
-E4: every single variable configuration (prefix combination x type x where der() is applied) and every
-ordered pair of configurations, in a model that also has a helper variable and a nested component.
-Reference classification: constant > parameter > top-level input > differentiated > algebraic; String
-constants / parameters in the string lists; one derivative per state; declaration order kept within a
-category (among variables of one class); outputs = output-prefixed states and algebraics (top level).
+E4: every single variable configuration (prefix combination x type x der() placement) and every ordered pair of
+core configurations, in a model that also has helper variables and a component nested two levels deep whose
+members carry every causality on plain and on derived (type alias) elementary types.
+
+der() placement = site x argument tree: the argument of der() is every expression tree with <= K operator nodes
+(binary + - *, unary -; K = 2 quick, 3 thorough) with the variable under test in every leaf position and helper
+variables (thorough, <= 2 operator nodes: also literals) in the others; sites: der(E) as a side of an equation, inside a larger
+expression, only in an initial equation; for nested component variables: written in the top-level class with dotted
+names, in the component's own equations, in the component's own initial equations, one and two levels deep.
+
+Reference classification: constant > parameter > top-level input > differentiated > algebraic (differentiated =
+occurs anywhere inside the argument of a der()); String constants / parameters in the string lists; one derivative
+per state; declaration order kept within a category (among variables of one class); outputs = output-prefixed
+states and algebraics (top level only: input/output do not count on component members, whatever their type);
+every symbol the equations depend on is a listed variable.
 """
 import itertools
 
@@ -14,66 +24,322 @@ LEVEL = "exploration"
 
 VARIABILITY = ["", "discrete", "parameter", "constant"]
 CAUSALITY = ["", "input", "output"]
-DER_USES = ["none", "direct", "in-expression", "of-sum", "initial-only"]
+SITES = ["eq", "expr", "init"]
+NESTED_SITES = ["top", "own-eq", "own-init"]
+BINOPS = ["+", "-", "*"]
+
+# derived elementary types: with a modification, with a bound, bare
+ALIASES = {"VR": "Real", "VI": "Integer", "VB": "Boolean"}
+ALIAS_DECL = 'type VR = Real(unit = "V");\ntype VI = Integer(min = 0);\ntype VB = Boolean;\n\n'
+BASE = {"Real": "Real", "Integer": "Integer", "Boolean": "Boolean", "String": "String", "VR": "Real", "VI": "Integer", "VB": "Boolean"}
+VALUE = {"Real": "1.5", "Integer": "2", "Boolean": "true", "String": '"txt"'}
+PYTYPE = {"Real": float, "Integer": int, "Boolean": bool}
+
+# ---------------------------------------------------------------------------------------------------------------
+# der() argument trees: ("v",) the variable under test, ("h", i) i-th other leaf, ("neg", t), (op, l, r)
+
+
+def shapes(k):
+    """All operator trees with exactly k operator nodes (leaves unlabelled: None)."""
+    if k == 0:
+        return [None]
+    out = [("neg", s) for s in shapes(k - 1)]
+    for i in range(k):
+        for left in shapes(i):
+            for right in shapes(k - 1 - i):
+                for op in BINOPS:
+                    out.append((op, left, right))
+    return out
+
+
+def n_leaves(s):
+    if s is None:
+        return 1
+    if s[0] == "neg":
+        return n_leaves(s[1])
+    return n_leaves(s[1]) + n_leaves(s[2])
+
+
+def label(s, pos, counter=None):
+    """Shape -> tree with leaf number `pos` = the variable under test and the others numbered helpers."""
+    counter = counter if counter is not None else [0, 0]
+    if s is None:
+        k = counter[0]
+        counter[0] += 1
+        if k == pos:
+            return ("v",)
+        counter[1] += 1
+        return ("h", counter[1])
+    if s[0] == "neg":
+        return ("neg", label(s[1], pos, counter))
+    left = label(s[1], pos, counter)
+    return (s[0], left, label(s[2], pos, counter))
+
+
+def trees(kmax, kmin=0):
+    out = []
+    for k in range(kmin, kmax + 1):
+        for s in shapes(k):
+            for pos in range(n_leaves(s)):
+                out.append(label(s, pos))
+    return out
+
+
+def n_ops(t):
+    if t[0] in ("v", "h"):
+        return 0
+    return 1 + sum(n_ops(c) for c in t[1:])
+
+
+def leaves(t):
+    if t[0] in ("v", "h"):
+        return [t]
+    return [x for c in t[1:] for x in leaves(c)]
+
+
+def position(t):
+    return [x[0] for x in leaves(t)].index("v")
+
+
+PREC = {"+": 1, "-": 1, "*": 2}
+
+
+def show(t, name, parent=None, side=None):
+    """Modelica text with the fewest parentheses that keep the tree shape.  name: leaf -> text."""
+    if t[0] in ("v", "h"):
+        return name(t)
+    if t[0] == "neg":
+        c = t[1]
+        inner = show(c, name, "neg", None)
+        s = "-" + (inner if c[0] in ("v", "h") else "(" + inner + ")")
+        if parent is None or (parent in ("+", "-") and side == "L"):
+            return s
+        return "(" + s + ")"
+    s = show(t[1], name, t[0], "L") + " " + t[0] + " " + show(t[2], name, t[0], "R")
+    if parent in PREC and (PREC[parent] > PREC[t[0]] or (PREC[parent] == PREC[t[0]] and side == "R")):
+        return "(" + s + ")"
+    return s
+
+
+LEAF = ("v",)
+SUM = ("+", ("v",), ("h", 1))  # der(v + h1)
+PROD_SUM = ("+", ("*", ("h", 1), ("h", 2)), ("v",))  # der(h1 * h2 + v): the variable follows a compound sub-expression
+
+
+def core_trees():
+    """One tree per structural shape and leaf position: + at the top, * below (<= 2 operator nodes)."""
+    out = []
+    for t in trees(2):
+        ops = []
+
+        def walk(x, depth):
+            if x[0] in ("v", "h"):
+                return
+            if x[0] != "neg":
+                ops.append((x[0], depth))
+            for c in x[1:]:
+                walk(c, depth + 1)
+
+        walk(t, 0)
+        depths = sorted({d for _, d in ops})
+        if all(op == ("+" if d == depths[0] else "*") for op, d in ops):
+            out.append(t)
+    return out
+
+
+def use_label(use):
+    if use is None:
+        return "none"
+    site, tree, fill = use
+    return "%s/%dop/pos%d%s" % (site, n_ops(tree), position(tree), "" if fill == "var" else "/" + fill)
+
+
+# ---------------------------------------------------------------------------------------------------------------
+# configurations
+
+
+def tree_uses(tier, sites):
+    """(site, tree, fill) for every site, every tree within the tier's bound, every fill of the other leaves."""
+    kmax = 2 if tier == "quick" else 3
+    fills = ["var"] if tier == "quick" else ["var", "lit"]
+    out = []
+    for site in sites:
+        for t in trees(kmax):
+            for fill in fills:
+                if fill == "lit" and (len(leaves(t)) == 1 or n_ops(t) > 2):
+                    continue  # literals: only where there is another leaf, and only up to two operator nodes
+                out.append((site, t, fill))
+    return out
 
 
 def configs(tier):
     out = []
     for var in VARIABILITY:
         for cau in CAUSALITY:
-            uses = DER_USES if var == "" else ["none"]
+            uses = [None] + (tree_uses(tier, SITES) if var == "" else [])
             for use in uses:
                 out.append(("Real", var, cau, use))
-            out.append(("Integer", var, cau, "none"))
-            out.append(("Boolean", var, cau, "none"))
-    out.append(("String", "parameter", "", "none"))
-    out.append(("String", "constant", "", "none"))
+            out.append(("Integer", var, cau, None))
+            out.append(("Boolean", var, cau, None))
+            # derived types: the same prefixes; der() through the leaf and the two reference trees at every site
+            alias_uses = [None] + ([(s, t, "var") for s in SITES for t in (LEAF, SUM, PROD_SUM)] if var == "" else [])
+            for use in alias_uses:
+                out.append(("VR", var, cau, use))
+            out.append(("VI", var, cau, None))
+            out.append(("VB", var, cau, None))
+    out.append(("String", "parameter", "", None))
+    out.append(("String", "constant", "", None))
     return out
+
+
+def is_basic(c):
+    """The configurations of the first round: plain types, der(v) / in an expression / of a sum / initial only."""
+    typ, var, cau, use = c
+    if typ not in ("Real", "Integer", "Boolean", "String"):
+        return False
+    return use is None or use in (("eq", LEAF, "var"), ("expr", LEAF, "var"), ("eq", SUM, "var"), ("init", LEAF, "var"))
 
 
 def pair_configs(tier):
     cs = configs(tier)
     if tier == "quick":
-        return [c for c in cs if c[0] == "Real" and c[3] in ("none", "direct", "in-expression")] + [("Integer", "parameter", "", "none"), ("Boolean", "", "", "none"), ("String", "parameter", "", "none")]
-    return cs
+        keep = (None, ("eq", LEAF, "var"), ("expr", LEAF, "var"))
+        out = [c for c in cs if c[0] == "Real" and c[3] in keep]
+        out += [("Real", "", "", ("eq", PROD_SUM, "var")), ("VR", "", "input", None), ("VR", "", "output", ("eq", LEAF, "var"))]
+        out += [("Integer", "parameter", "", None), ("Boolean", "", "", None), ("String", "parameter", "", None)]
+        return out
+    return [c for c in cs if is_basic(c)] + [
+        ("Real", "", "", ("eq", PROD_SUM, "var")),
+        ("Real", "", "output", ("init", PROD_SUM, "var")),
+        ("VR", "", "", None),
+        ("VR", "", "input", None),
+        ("VR", "", "output", ("eq", LEAF, "var")),
+        ("VR", "parameter", "", None),
+    ]
 
 
-VALUE = {"Real": "1.5", "Integer": "2", "Boolean": "true", "String": '"txt"'}
+# members of the nested component classes: (name, prefix, type); h g f are the helper leaves of der() trees
+MEMBERS = [
+    ("s", "", "Real"),
+    ("si", "input", "Real"),
+    ("so", "output", "Real"),
+    ("a", "", "VR"),
+    ("ai", "input", "VR"),
+    ("ao", "output", "VR"),
+    ("ii", "input", "Integer"),
+    ("io", "output", "Integer"),
+    ("ji", "input", "VI"),
+    ("jo", "output", "VI"),
+    ("bi", "input", "Boolean"),
+    ("bo", "output", "Boolean"),
+    ("ci", "input", "VB"),
+    ("co", "output", "VB"),
+    ("sp", "parameter", "Real"),
+    ("ap", "parameter", "VR"),
+    ("jp", "parameter input", "VI"),
+    ("ak", "constant", "VR"),
+    ("h", "", "Real"),
+    ("g", "", "Real"),
+    ("f", "", "Real"),
+]
+NESTED_TARGETS = ["s", "si", "so", "a", "ai", "ao"]
+LEVELS = {1: "n.", 2: "n.q."}
 
 
-def build(cfgs, nested_use):
+def nested_uses(tier):
+    """(level, member, site, tree, fill): der() on a variable of the nested component."""
+    out = []
+    full = tree_uses(tier, ["x"])
+    core = core_trees()
+    for level in (1, 2):
+        for site in NESTED_SITES:
+            for member in NESTED_TARGETS:
+                if member == "s":
+                    ts = [(t, f) for _, t, f in full]
+                elif tier == "quick":
+                    ts = [(t, "var") for t in core]
+                else:
+                    ts = [(t, "var") for t in trees(2)]
+                for t, f in ts:
+                    out.append((level, member, site, t, f))
+    return out
+
+
+NESTED_DIRECT = (1, "s", "top", LEAF, "var")  # der(n.s) = u0, the nested placement of the first round
+
+# ---------------------------------------------------------------------------------------------------------------
+# model text + reference
+
+
+def class_text(name, inner, eqs, ieqs):
+    lines = ["model " + name]
+    for m, prefix, typ in MEMBERS:
+        base = BASE[typ]
+        val = " = " + VALUE[base] if ("parameter" in prefix or "constant" in prefix) else ""
+        lines.append("  %s%s %s%s;" % (prefix + " " if prefix else "", typ, m, val))
+    if inner:
+        lines.append("  %s q;" % inner)
+    if ieqs:
+        lines.append("initial equation")
+        lines += ieqs
+    lines.append("equation")
+    lines += eqs + ["  so = si;"]
+    lines.append("end %s;" % name)
+    return "\n".join(lines) + "\n\n"
+
+
+def build(cfgs, nested):
     """Model text + reference classification for variables v1.. with the given configurations."""
     decl, eqs, ieqs = [], [], []
     ref = {}  # name -> category
     differentiated = set()
     outputs = []
     names = []
+    top_helpers = ["h1", "h2", "h3"]
+
+    def place(site, tree, fill, written, flat, into_eqs, into_ieqs, rhs):
+        """written: leaf -> name as written in the class that holds the equation; flat: leaf -> name in the flat model."""
+
+        def name(leaf):
+            if leaf[0] == "h" and fill == "lit":
+                return ("2", "3", "0.5")[leaf[1] - 1]
+            differentiated.add(flat(leaf))
+            return written(leaf)
+
+        d = "der(%s)" % show(tree, name)
+        if site == "expr":
+            into_eqs.append("  w = 2 * %s + %s;" % (d, rhs))
+        elif site in ("init", "own-init"):
+            into_ieqs.append("  %s = %s;" % (d, rhs))
+        else:
+            into_eqs.append("  %s = %s;" % (d, rhs))
+
     for k, (typ, var, cau, use) in enumerate(cfgs):
         v = ("zv", "av", "mv", "bv", "yv")[k] + str(k + 1)  # declaration order is not alphabetical order
         names.append(v)
         prefix = " ".join(x for x in (var, cau) if x)
-        val = " = " + VALUE[typ] if var in ("parameter", "constant") else ""
+        val = " = " + VALUE[BASE[typ]] if var in ("parameter", "constant") else ""
         decl.append("  %s%s %s%s;" % (prefix + " " if prefix else "", typ, v, val))
-        if use == "direct":
-            eqs.append("  der(%s) = 1;" % v)
-            differentiated.add(v)
-        elif use == "in-expression":
-            eqs.append("  w = 2 * der(%s) + 1;" % v)
-            differentiated.add(v)
-        elif use == "of-sum":
-            eqs.append("  der(%s + w) = 1;" % v)
-            differentiated |= {v, "w"}
-        elif use == "initial-only":
-            ieqs.append("  der(%s) = 0;" % v)
-            differentiated.add(v)
+        if use is not None:
+            site, tree, fill = use
+            top = lambda leaf, v=v: v if leaf[0] == "v" else top_helpers[leaf[1] - 1]  # noqa: E731
+            place(site, tree, fill, top, top, eqs, ieqs, "u0")
         elif var in ("", "discrete") and cau != "input":
-            eqs.append("  %s = %s;" % (v, VALUE[typ]))
-    decl.append("  Real w;")
+            eqs.append("  %s = %s;" % (v, VALUE[BASE[typ]]))
+    helpers = ["w", "u0"] + top_helpers
+    for h in helpers:
+        decl.append("  Real %s;" % h)
     decl.append("  Sub n;")
-    if nested_use == "nested-der":
-        eqs.append("  der(n.s) = 1;")
-        differentiated.add("n.s")
-    eqs.append("  n.so = n.si;")
+    sub_eqs = {1: ([], []), 2: ([], [])}
+    if nested is not None:
+        level, member, site, tree, fill = nested
+        local = lambda leaf: member if leaf[0] == "v" else "hgf"[leaf[1] - 1]  # noqa: E731
+        dotted = lambda leaf: LEVELS[level] + local(leaf)  # noqa: E731
+        if site == "top":
+            place(site, tree, fill, dotted, dotted, eqs, ieqs, "u0")
+        else:
+            # the equation is written inside the component class, with the undotted names
+            place(site, tree, fill, local, dotted, sub_eqs[level][0], sub_eqs[level][1], "1")
     for k, (typ, var, cau, use) in enumerate(cfgs):
         v = names[k]
         if var == "constant":
@@ -88,29 +354,54 @@ def build(cfgs, nested_use):
             ref[v] = "alg_states"
         if cau == "output" and ref[v] in ("states", "alg_states"):
             outputs.append(v)
-    ref["w"] = "states" if "w" in differentiated else "alg_states"
-    ref["n.s"] = "states" if "n.s" in differentiated else "alg_states"
-    ref["n.si"] = "alg_states"  # input/output only count at the top level
-    ref["n.so"] = "alg_states"
-    ref["n.sp"] = "parameters"
+    for h in helpers:
+        ref[h] = "states" if h in differentiated else "alg_states"
+    for pre in LEVELS.values():
+        for m, prefix, typ in MEMBERS:
+            n = pre + m
+            if "constant" in prefix:
+                ref[n] = "constants"
+            elif "parameter" in prefix:
+                ref[n] = "parameters"
+            elif n in differentiated:
+                ref[n] = "states"
+            else:
+                ref[n] = "alg_states"  # input/output only count at the top level
     text = (
-        "model Sub\n  Real s;\n  input Real si;\n  output Real so;\n  parameter Real sp = 1;\nend Sub;\n\n"
-        "model M\n" + "\n".join(decl) + "\n" + ("initial equation\n" + "\n".join(ieqs) + "\n" if ieqs else "") + "equation\n" + "\n".join(eqs) + "\nend M;\n"
+        ALIAS_DECL
+        + class_text("Sub2", None, *sub_eqs[2])
+        + class_text("Sub", "Sub2", *sub_eqs[1])
+        + "model M\n"
+        + "\n".join(decl)
+        + "\n"
+        + ("initial equation\n" + "\n".join(ieqs) + "\n" if ieqs else "")
+        + "equation\n"
+        + "\n".join(eqs + ["  n.so = n.si;"])
+        + "\nend M;\n"
     )
-    return text, ref, outputs, names
+    groups = [names + helpers] + [[pre + m for m, _, _ in MEMBERS] for pre in LEVELS.values()]
+    return text, ref, outputs, names, groups
 
 
-PYTYPE = {"Real": float, "Integer": int, "Boolean": bool}
+def cfg_label(c):
+    return ("%s %s %s der:%s" % (c[0], c[1], c[2], use_label(c[3]))).replace(" ", "_")
+
+
+def nested_label(nested):
+    level, member, site, tree, fill = nested
+    return "nested%d.%s:%s" % (level, member, use_label((site, tree, fill)))
 
 
 def check(job):
-    cfgs, nested_use = job
-    text, ref, outputs, names = build(cfgs, nested_use)
-    case = {"text": text}
+    cfgs, nested = job
+    text, ref, outputs, names, groups = build(cfgs, nested)
+    case = {"text": text, "job": job}
     try:
         m = cas.generate(text, "M")
     except Exception as e:
         return [("generate-raises:" + common.exc_sig(e), "model does not generate: %r\n%s" % (e, text), case)]
+    import casadi as ca
+
     viol = []
     got = {}
     lists = {g: [v.symbol.name() for v in getattr(m, g)] for g in ("states", "alg_states", "inputs", "constants", "parameters")}
@@ -119,47 +410,89 @@ def check(job):
     for g, ns in lists.items():
         for n in ns:
             got.setdefault(n, []).append(g)
+    target = None
+    if nested is not None:
+        target = LEVELS[nested[0]] + nested[1]
     for n, cat in ref.items():
         g = got.get(n, [])
         if g != [cat]:
-            k = names.index(n) if n in names else None
-            what = "%s %s %s der:%s" % cfgs[k] if k is not None else n
-            viol.append(("misclassified:%s:%s->%s" % (what.replace(" ", "_"), cat, "+".join(g) or "nowhere"), "%s should be in %s exactly once, found in %r\n%s" % (n, cat, g, text), case))
+            if n in names:
+                what = cfg_label(cfgs[names.index(n)])
+            elif n == target:
+                what = nested_label(nested)
+            elif "." in n:
+                k = [mm for mm, _, _ in MEMBERS].index(n.rsplit(".", 1)[1])
+                what = "nested%d:%s_%s" % (n.count("."), MEMBERS[k][1].replace(" ", "_") or "plain", MEMBERS[k][2])
+            else:
+                what = "helper:" + n
+            viol.append(("misclassified:%s:%s->%s" % (what, cat, "+".join(g) or "nowhere"), "%s should be in %s exactly once, found in %r\n%s" % (n, cat, g, text), case))
     extra = sorted(set(got) - set(ref))
     if extra:
         viol.append(("unexpected-variable", "model has variables %r that the source does not declare\n%s" % (extra, text), case))
     ders = [v.symbol.name() for v in m.der_states]
     if ders != ["der(%s)" % s for s in lists["states"]]:
         viol.append(("der-states-mismatch", "der_states %r do not match states %r one to one\n%s" % (ders, lists["states"], text), case))
-    # declaration order within a category, among the top-level variables
+    # declaration order within a category, among the variables declared in one class
     for g, ns in lists.items():
-        top = [n for n in ns if n in names or n == "w"]
-        order = [n for n in names + ["w"] if n in top]
-        if top != order:
-            viol.append(("order-within-category:" + g, "%s lists %r, declaration order is %r\n%s" % (g, top, order, text), case))
+        for grp in groups:
+            mine = [n for n in ns if n in grp]
+            order = [n for n in grp if n in mine]
+            if mine != order:
+                viol.append(("order-within-category:" + g, "%s lists %r, declaration order is %r\n%s" % (g, mine, order, text), case))
     if sorted(m.outputs) != sorted(outputs) or len(m.outputs) != len(set(m.outputs)):
         viol.append(("outputs", "outputs %r, expected %r\n%s" % (m.outputs, outputs, text), case))
+    # every symbol the equations depend on is a listed variable (a derivative that is in no list cannot be supplied
+    # to the residual functions).  Not demanded: der(u) of a top-level input u -- see the assumptions.
+    listed = set(got) | set(ders) | {m.time.name()}
+    used = set()
+    for eq in list(m.equations) + list(m.initial_equations):
+        used |= {s.name() for s in ca.symvar(ca.MX(eq))}
+    tolerated = {"der(%s)" % n for n, cat in ref.items() if cat == "inputs"}
+    stray = sorted(used - listed - tolerated)
+    if stray:
+        kinds = sorted({"derivative" if s.startswith("der(") else "symbol" for s in stray})
+        viol.append(("unlisted-symbol-in-equations:" + "+".join(kinds), "the equations depend on %r, which are in no variable list\n%s" % (stray, text), case))
+    py = {}
     for k, (typ, var, cau, use) in enumerate(cfgs):
-        if typ in PYTYPE:
-            for g in ("states", "alg_states", "inputs", "constants", "parameters"):
-                for v in getattr(m, g):
-                    if v.symbol.name() == names[k] and v.python_type is not PYTYPE[typ]:
-                        viol.append(("python-type:" + typ, "%s is %s but python_type is %s\n%s" % (names[k], typ, v.python_type.__name__, text), case))
+        if BASE[typ] in PYTYPE:
+            py[names[k]] = (typ, PYTYPE[BASE[typ]])
+    for pre in LEVELS.values():
+        for mm, prefix, typ in MEMBERS:
+            py[pre + mm] = (typ, PYTYPE[BASE[typ]])
+    for g in ("states", "alg_states", "inputs", "constants", "parameters"):
+        for v in getattr(m, g):
+            n = v.symbol.name()
+            if n in py and v.python_type is not py[n][1]:
+                viol.append(("python-type:" + py[n][0], "%s is %s but python_type is %s\n%s" % (n, py[n][0], v.python_type.__name__, text), case))
     return viol
+
+
+def nontrivial(job):
+    cfgs, nested = job
+    return nested is not None or any(c[1] or c[2] or c[3] is not None for c in cfgs)
 
 
 def jobs(tier):
     out = []
-    for c in configs(tier):
-        out.append(((c,), "none"))
-        out.append(((c,), "nested-der"))
+    cs = configs(tier)
+    for c in cs:
+        out.append(((c,), None))
+    for c in cs:
+        if is_basic(c):
+            out.append(((c,), NESTED_DIRECT))
+    for nu in nested_uses(tier):
+        out.append(((), nu))
     pc = pair_configs(tier)
     for a, b in itertools.product(pc, repeat=2):
-        out.append(((a, b), "none"))
+        out.append(((a, b), None))
+    # a top-level der() tree followed / preceded by a nested one (the two walks share the annotator)
+    for nu in [(1, "s", "own-eq", PROD_SUM, "var"), (2, "a", "own-init", PROD_SUM, "var"), (1, "ai", "top", SUM, "var")]:
+        for c in pc:
+            out.append(((c,), nu))
     if tier == "thorough":
-        core = [c for c in configs(tier) if c[0] == "Real" and c[3] in ("none", "direct")]
+        core = [c for c in cs if c[0] == "Real" and c[3] in (None, ("eq", LEAF, "var"))]
         for t in itertools.product(core, repeat=3):
-            out.append((t, "nested-der"))
+            out.append((t, NESTED_DIRECT))
     return out
 
 
@@ -167,31 +500,63 @@ def run(ctx):
     js = jobs(ctx.tier)
     with common.Pool() as pool:
         res = pool.map(check, js, chunksize=8)
-    texts = set()
-    nontriv = 0
-    for (cfgs, nu), viol in zip(js, res):
+    nontriv = set()
+    for j, viol in zip(js, res):
         for sig, msg, case in viol:
             ctx.violation(sig, msg, case)
-        if any(c[1] or c[2] or c[3] != "none" for c in cfgs):
-            nontriv += 1
+        if nontrivial(j):
+            nontriv.add(build(*j)[0])
     for k in (0, len(js) // 2, len(js) - 1):
-        ctx.sample({"configs": js[k][0], "nested": js[k][1], "model": build(*js[k])[0]})
+        ctx.sample({"configs": [cfg_label(c) for c in js[k][0]], "nested": nested_label(js[k][1]) if js[k][1] else None, "model": build(*js[k])[0]})
+    kmax = 2 if ctx.tier == "quick" else 3
     ctx.coverage.update(
         {
             "evaluations": len(js),
-            "distinct_nontrivial": nontriv,
+            "distinct_nontrivial": len(nontriv),
             "single_configurations": len(configs(ctx.tier)),
+            "der_argument_trees": len(trees(kmax)),
+            "der_argument_trees_two_or_more_operators": len(trees(kmax, 2)),
+            "nested_der_placements": len(nested_uses(ctx.tier)),
+            "pair_configurations": len(pair_configs(ctx.tier)),
             "exhaustive": True,
-            "rule": "all single variable configurations (4 variabilities x 3 causalities x {Real with 5 der() placements, Integer, "
-            "Boolean} + String parameter/constant), each with and without der() on a nested component variable; all ordered "
-            "pairs of configurations (quick: of the Real none/direct/in-expression configurations plus three others; thorough: "
-            "all, plus all triples of the Real none/direct ones). Non-trivial = at least one prefix or der() placement is present.",
+            "rule": "all single variable configurations: 4 variabilities x 3 causalities x {Real, Integer, Boolean, and the derived "
+            "types VR = Real(unit), VI = Integer(min), VB = Boolean} + String parameter/constant; a Real variable without "
+            "variability prefix additionally with every der() placement = site {side of an equation, inside a larger expression, "
+            "initial equation only} x every argument tree with <= %d operator nodes (+ - * and unary -) x every leaf position of "
+            "the variable (other leaves helper variables%s); a VR variable with der(v), der(v + h), der(h1 * h2 + v) at every site. "
+            "Every model contains a component with a sub-component (two nesting levels), each with plain / input / output members of "
+            "Real, Integer, Boolean, VR, VI, VB and parameter / constant members. Nested der(): level {1, 2} x site {top-level equation "
+            "with dotted names, the component's own equation, its own initial equation} x member {plain Real: all trees; input / "
+            "output Real, plain / input / output VR: %s}. All ordered pairs of %d core configurations, each core configuration with "
+            "three nested der() placements%s. Non-trivial = at least one prefix or der() placement is present."
+            % (
+                kmax,
+                "" if ctx.tier == "quick" else "; for <= 2 operator nodes also literals",
+                "one tree per shape and position" if ctx.tier == "quick" else "all trees with <= 2 operator nodes",
+                len(pair_configs(ctx.tier)),
+                "" if ctx.tier == "quick" else ", all triples of the Real none/der(v) configurations",
+            ),
         }
     )
     ctx.assumptions.append("a variable differentiated only in an initial equation counts as differentiated (as the quantifier lists it)")
+    ctx.assumptions.append(
+        "der(u) of a top-level input u: the statement puts u in the inputs and says nothing about its derivative; pymoca leaves an "
+        "unlisted der(u) symbol in the equations -- not demanded, every other unlisted symbol is a violation"
+    )
+    ctx.assumptions.append("der() of parameters / constants / discrete / Integer variables and flow / stream prefixes are outside the alphabet")
+
+
+def _tup(x):
+    return tuple(_tup(y) for y in x) if isinstance(x, (list, tuple)) else x
 
 
 def replay(case):
+    if "job" in case:
+        j = _tup(case["job"])
+        j = (j[0], j[1] if j[1] else None)
+        v = check(j)
+        print(build(*j)[0], [m.split("\n")[0] for _, m, _ in v] or "ok")
+        return not v
     for j in jobs("thorough"):
         if build(*j)[0] == case["text"]:
             v = check(j)
